@@ -80,7 +80,7 @@ def probe_sites():
 def one_run(kind, i, seed, dense=True):
     from . import sim_machine as SM
     rs, cfg, ops, vals = history_for(kind, i, seed)
-    r = core.fork_call(_child_check, (ops, vals, dense, bool(cfg.get('backing'))), CHILD_TIMEOUT)
+    r = core.fork_call(_child_check, (ops, vals, dense, cfg.get('backing') or False), CHILD_TIMEOUT)
     out = {'kind': kind, 'run': i, 'seed': rs, 'mode': cfg['mode'], 'n': len(ops),
            'hh': core.digest(ops)[:16]}
     if r.status == 'timeout':
@@ -195,7 +195,7 @@ def main(args):
             continue
         seen.add(cls)
         rs, cfg, ops, vals = history_for(tasks[k][0], tasks[k][1], seed)
-        bk = bool(cfg.get('backing'))
+        bk = cfg.get('backing') or False
         ok, _ = confirm(ops, vals, cls, bk)
         if not ok:
             batch.harness_errors.append('C07 violation of %s run %d (%s) did not reproduce in a fresh child' % (tasks[k][0], tasks[k][1], cls))
@@ -250,7 +250,7 @@ def main(args):
 def replay(path):
     with open(path) as f:
         rec = json.load(f)
-    ok, r = confirm(rec['ops'], rec['valuations'], rec['class'], bool(rec.get('config', {}).get('backing')))
+    ok, r = confirm(rec['ops'], rec['valuations'], rec['class'], rec.get('config', {}).get('backing') or False)
     if r.status != 'ok':
         print('HARNESS-ERROR replay did not complete: %s' % (r.value,))
         return 2
